@@ -1079,8 +1079,35 @@ def regenerate_trproj(ctx=None):
     except Exception as exc:
         if ctx is not None:
             ctx.broke("gen:trproj", repr(exc))
+    # every call of util.dykstra in the package: (file:function, list argument, point argument, max_iter=, tol=); "" = not passed
+    calls = []
+    sig = ""
+    try:
+        for fname in ("util.py", "model.py", "controller.py", "trust_region.py", "solver.py"):
+            t2 = ast.parse(open(os.path.join(core.REPO, "dfols", fname)).read())
+            funcs = [n for n in ast.walk(t2) if isinstance(n, ast.FunctionDef)]
+            for fn in funcs:
+                if fname == "util.py" and fn.name == "dykstra":
+                    sig = ast.unparse(fn.args)
+                inner = [g for g in ast.walk(fn) if isinstance(g, ast.FunctionDef) and g is not fn]
+                for n in ast.walk(fn):
+                    if isinstance(n, ast.Call) and ast.unparse(n.func) == "dykstra" and not any(n in list(ast.walk(g)) for g in inner):
+                        kw = {k.arg: ast.unparse(k.value) for k in n.keywords}
+                        pos = [ast.unparse(a) for a in n.args]
+                        calls.append((n.lineno, "%s:%s" % (fname, fn.name), pos[0] if pos else "", pos[1] if len(pos) > 1 else "",
+                                      kw.get("max_iter", pos[2] if len(pos) > 2 else ""), kw.get("tol", pos[3] if len(pos) > 3 else ""),
+                                      len(pos), sorted(kw)))
+    except Exception as exc:
+        if ctx is not None:
+            ctx.broke("gen:dykstra-calls", repr(exc))
+    qq = lambda t: '"%s"' % t.replace('"', "'")
     content = "\n".join(["/- GENERATED by harness/gen_kernels.py from /repo's dfols/trust_region.py on every run — do not edit. -/",
                          "namespace Dfols.Gen", "",
+                         "/-- parameters of util.dykstra -/", "def dykstraSignature : String := %s" % qq(sig), "",
+                         "/-- every call of `dykstra` in the package: (file:function, list, point, max_iter, tol) — \"\" = left to the default -/",
+                         "def dykstraCalls : List (String × String × String × String × String) := [",
+                         ",\n".join("  (%s, %s, %s, %s, %s)" % (qq(f), qq(a), qq(b), qq(mi), qq(tl)) for _l, f, a, b, mi, tl, _np, _kw in sorted(calls)),
+                         "]", "",
                          "/-- (function, statements defining `trproj` and building the projector list `P`, in source order) -/",
                          "def trprojPlacement : List (String × List String) := [",
                          ",\n".join('  ("%s", [%s])' % (f, ", ".join('"%s"' % t.replace('"', "'") for t in ts)) for f, ts in rows),
